@@ -159,7 +159,21 @@ Paths(soup, src, dst) == PathsE(Edges(soup), soup, src, dst)
 
 \* P-layer on the model: a returned path has two interfaces per link and they chain through the ASes
 ChainOk(ifs) == \A k \in 1..(Len(ifs) - 2) : (k % 2 = 0) => ifs[k][1] = ifs[k + 1][1]
+\* every link a path claims to cross is announced by some segment of the input: as two consecutive AS
+\* entries, or as a peer entry that names both interfaces
+Announced(soup, x, y) ==
+  \E k \in 1..Len(soup) : \E i \in 1..Len(soup[k].es) :
+    LET es == soup[k].es  a == es[i] IN
+    \/ i < Len(es) /\ (\/ (a.as = x[1] /\ a.eg = x[2] /\ es[i + 1].as = y[1] /\ es[i + 1].in = y[2])
+                        \/ (a.as = y[1] /\ a.eg = y[2] /\ es[i + 1].as = x[1] /\ es[i + 1].in = x[2]))
+    \/ \E p \in 1..Len(a.peers) :
+         LET q == a.peers[p] IN
+         \/ (a.as = x[1] /\ q.lif = x[2] /\ q.pas = y[1] /\ q.pif = y[2])
+         \/ (a.as = y[1] /\ q.lif = y[2] /\ q.pas = x[1] /\ q.pif = x[2])
+LinksAnnounced(soup, ifs) == \A j \in 1..(Len(ifs) \div 2) : Announced(soup, ifs[2 * j - 1], ifs[2 * j])
+
 IfsConsistent(soup, sol, ifs) ==
+  /\ LinksAnnounced(soup, ifs)
   /\ Len(ifs) = 2 * (TotalHops(soup, sol) - Len(sol) + (IF \E j \in 1..Len(sol) : sol[j].peer # 0 THEN 1 ELSE 0))
   /\ ChainOk(ifs)
   /\ \A k \in 1..Len(ifs) : ifs[k][2] # 0
